@@ -495,6 +495,14 @@ CORPUS = [
      "(RSeq (RAssign (TVar 2) (XVar 1)) (RSeq (RAssign (TVar 1) (XIn 0)) (RAssign (TSig 0) (XVar 2))))"),
     ("clocked", ["was = bool(vb)", "if self.b:", "    vb @= self.a", "self.q0 <<= was", "self.q1 ^= vb"],
      "(RSeq (RAssign (TVar 2) (XVar 1)) (RSeq (RIf (XIn 1) (RAssign (TVar 1) (XIn 0)) RSkip) (RSeq (RAssign (TSig 0) (XVar 2)) (RAssign (TPush 1) (XVar 1)))))"),
+    ("clocked", ["flag = Variable[bool](self.a)", "was = bool(flag)", "flag @= self.b", "self.q0 <<= was", "self.q1 ^= flag"],
+     "(RSeq (RAssign (TVar 2) (XIn 0)) (RSeq (RAssign (TVar 0) (XVar 2)) (RSeq (RAssign (TVar 2) (XIn 1)) (RSeq (RAssign (TSig 0) (XVar 0)) (RAssign (TPush 1) (XVar 2))))))"),
+    # compile-time constants inside run-time conditions (a disabled feature flag): and/or fold the constant operand
+    ("clocked", ["if False and self.a:", "    self.q0 <<= self.b", "else:", "    self.q0 <<= True", "if self.a and True:", "    self.q1 ^= self.b"],
+     "(RSeq (RAssign (TSig 0) (XConst 1%Z)) (RIf (XIn 0) (RAssign (TPush 1) (XIn 1)) RSkip))"),
+    ("clocked", ["if self.b and False:", "    self.r0 <<= 1", "elif True or self.a:", "    self.r0 <<= 2", "else:", "    self.r0 <<= 3",
+                 "if self.a or False:", "    self.q0 <<= self.b"],
+     "(RSeq (RAssign (TSig 2) (XConst 2%Z)) (RIf (XIn 0) (RAssign (TSig 0) (XIn 1)) RSkip))"),
     ("clocked", ["t = v0 + 1", "v0 @= self.x", "self.r0 <<= t"],
      "(RSeq (RAssign (TVar 2) (XAdd 2%N (XVar 0) (XConst 1%Z))) (RSeq (RAssign (TVar 0) (XIn 2)) (RAssign (TSig 2) (XVar 2))))"),
     # literals assigned to ONE target in several branches: each branch keeps its own literal (push, variable, next)
